@@ -22,9 +22,11 @@ import (
 	_ "crypto/sha512"
 	"encoding/hex"
 	"encoding/json"
+	"flag"
 	"fmt"
 	"io"
 	"os"
+	"os/exec"
 	"path/filepath"
 	"sort"
 	"strings"
@@ -96,6 +98,7 @@ type Scenario struct {
 	Tamper       bool   `json:"tamper"`
 	ReproPair    bool   `json:"reproPair"`
 	Foreign      uint64 `json:"foreign,omitempty"` // != 0: also push a re-ordered archive of the first directory (seed)
+	NonRoot      bool   `json:"nonRoot,omitempty"` // run by an unprivileged user (uid 65534): permission checks of the kernel apply
 }
 
 func hx(s string) string   { return hex.EncodeToString([]byte(s)) }
@@ -221,7 +224,7 @@ func (g *genCtx) dir(depth int) *Node {
 	r := g.r
 	d := &Node{Kind: "d", Mode: common.Pick(r, dirModes), Mtime: genTime(r), Mtime2: genTime(r)}
 	if g.special && r.Chance(1, 3) {
-		d.Mode |= 0o1000 // sticky; setuid/setgid directories are not explored (mkdir(2) drops them)
+		d.Mode |= common.Pick(r, []uint32{0o1000, 0o1000, 0o2000, 0o4000, 0o6000, 0o3000, 0o7000})
 	}
 	n := r.Intn(6)
 	if depth == 0 && n == 0 && r.Chance(2, 3) {
@@ -339,7 +342,7 @@ func (g *genCtx) fillLinks(root *Node) {
 }
 
 func genTree(r *common.Rand, big, badLink bool) *Node {
-	g := &genCtx{r: r, budget: 4 + r.Intn(40), big: big, badLink: badLink, special: r.Chance(1, 6)}
+	g := &genCtx{r: r, budget: 4 + r.Intn(40), big: big, badLink: badLink, special: !*nonRootFlag && r.Chance(1, 6)}
 	root := g.dir(0)
 	g.fillLinks(root)
 	return root
@@ -347,9 +350,17 @@ func genTree(r *common.Rand, big, badLink bool) *Node {
 
 var itemNames = []string{"d", "dir", "out", "sub/dir", "a b", "ünï", "x.y", "deep/er/dir", "D", "data", "e", "f", "g/h", "日本"}
 
+var nonRootFlag = flag.Bool("nonroot", false, "this process is the unprivileged child: generate and run the non-root scenarios")
+
+const nonRootUID = 65534
+
 func genScenario(r *common.Rand, idx int) *Scenario {
-	sc := &Scenario{Op: "S"}
+	sc := &Scenario{Op: "S", NonRoot: *nonRootFlag}
 	sc.Umask = common.Pick(r, []int{0o022, 0o022, 0o077, 0o027, 0o002, 0o000, 0o007, 0o026})
+	if !*nonRootFlag && r.Chance(1, 8) {
+		// umasks with owner bits (only root can work under them)
+		sc.Umask = common.Pick(r, []int{0o300, 0o277, 0o123, 0o777, 0o500})
+	}
 	sc.Repro = r.Bool()
 	sc.Preserve = r.Bool()
 	sc.SkipUnpack = r.Chance(1, 8)
@@ -405,6 +416,9 @@ func genScenario(r *common.Rand, idx int) *Scenario {
 			t = genTree(r, big, bad)
 		}
 		trees = append(trees, t)
+		if t.Kind == "d" && r.Chance(1, 10) {
+			backIn(r, t, nm)
+		}
 		it := Item{Name: hx(nm), Tree: t, ViaLink: r.Chance(1, 8)}
 		if r.Chance(1, 6) { // the content lives elsewhere than under its name
 			it.Path = hx(common.Pick(r, []string{"", "/"}) + fmt.Sprintf("_elsewhere/%d/x", i))
@@ -412,6 +426,33 @@ func genScenario(r *common.Rand, idx int) *Scenario {
 		sc.Items = append(sc.Items, it)
 	}
 	return sc
+}
+
+// backIn rewrites one symlink so that its target leaves the directory and comes back through
+// the directory's own name (filepath.Join cleans that to a path inside).
+func backIn(r *common.Rand, root *Node, name string) {
+	comps := strings.Split(filepath.ToSlash(filepath.Clean(name)), "/")
+	var links [][]string
+	var nodes []*Node
+	var all [][]string
+	walkNodes(root, nil, func(rel []string, n *Node) {
+		if n.Kind == "l" {
+			links, nodes = append(links, rel), append(nodes, n)
+		}
+		if len(rel) > 0 {
+			all = append(all, rel)
+		}
+	})
+	if len(links) == 0 {
+		return
+	}
+	i := r.Intn(len(links))
+	up := len(links[i]) - 1 + 1 + r.Intn(len(comps)) // out of the directory by 1..len(comps) levels
+	if up > len(links[i])-1+len(comps) {
+		up = len(links[i]) - 1 + len(comps)
+	}
+	back := comps[len(comps)-(up-(len(links[i])-1)):]
+	nodes[i].Target = hx(strings.Repeat("../", up) + strings.Join(back, "/") + "/" + strings.Join(common.Pick(r, all), "/"))
 }
 
 func cloneNode(n *Node) *Node {
@@ -491,6 +532,17 @@ func materialise(path string, n *Node, second bool) error {
 		}
 		if err := os.Chmod(path, os.FileMode(n.Mode&0o777)|special(n.Mode)); err != nil {
 			return err
+		}
+	}
+	if second && os.Getuid() == 0 && n.Seed%3 != 1 {
+		// the second copy of a reproducibility pair belongs to somebody else
+		if err := os.Lchown(path, 1000+int(n.Mtime2%7), 2000+int(n.Mtime2%5)); err != nil {
+			return err
+		}
+		if n.Kind != "l" { // chown clears setuid/setgid
+			if err := os.Chmod(path, os.FileMode(n.Mode&0o777)|special(n.Mode)); err != nil {
+				return err
+			}
 		}
 	}
 	return lutimes(path, mt)
@@ -648,10 +700,20 @@ func nameComps(name string) string {
 
 // ---------- independent ground truth ----------
 
-// benign: every symlink is relative, stays inside the directory lexically and does
-// not pass through another symlink of the tree, nor through a regular file other than as
-// the last directory component (an independent re-statement, not the model).
-func benign(root *Node) bool {
+// linkClass classifies the symlinks of a directory tree added under name, from the generator's
+// data only (an independent re-statement, not the model):
+//
+//	"benign"  every target is relative, stays inside the directory (it may leave it and come
+//	          back through the directory's own name) and passes neither through another
+//	          symlink of the tree nor through a regular file (other than as the last directory component)
+//	"through" every target stays inside, but some pass through a symlink or a regular file:
+//	          extractTarDirectory refuses these depending on the extraction order
+//	"outside" some target is absolute or leaves the directory
+func linkClass(root *Node, name string) string {
+	var pre []string
+	for _, c := range strings.Split(filepath.ToSlash(filepath.Clean(name)), "/") {
+		pre = append(pre, c)
+	}
 	linkAt := map[string]bool{}
 	fileAt := map[string]bool{}
 	walkNodes(root, nil, func(rel []string, n *Node) {
@@ -662,23 +724,23 @@ func benign(root *Node) bool {
 			fileAt[strings.Join(rel, "\x00")] = true
 		}
 	})
-	ok := true
+	class := "benign"
 	walkNodes(root, nil, func(rel []string, n *Node) {
-		if n.Kind != "l" {
+		if n.Kind != "l" || class == "outside" {
 			return
 		}
 		t := n.target()
 		if strings.HasPrefix(t, "/") {
-			ok = false
+			class = "outside"
 			return
 		}
-		stack := append([]string{}, rel[:len(rel)-1]...)
+		stack := append(append([]string{}, pre...), rel[:len(rel)-1]...)
 		for _, c := range strings.Split(t, "/") {
 			switch c {
 			case "", ".":
 			case "..":
 				if len(stack) == 0 {
-					ok = false
+					class = "outside"
 					return
 				}
 				stack = stack[:len(stack)-1]
@@ -686,17 +748,24 @@ func benign(root *Node) bool {
 				stack = append(stack, c)
 			}
 		}
+		if len(stack) < len(pre) || strings.Join(stack[:len(pre)], "\x00") != strings.Join(pre, "\x00") {
+			class = "outside"
+			return
+		}
+		stack = stack[len(pre):]
 		for i := 1; i < len(stack); i++ {
 			if linkAt[strings.Join(stack[:i], "\x00")] {
-				ok = false
+				class = "through"
 			}
 			if i < len(stack)-1 && fileAt[strings.Join(stack[:i], "\x00")] {
-				ok = false
+				class = "through"
 			}
 		}
 	})
-	return ok
+	return class
 }
+
+func benign(root *Node, name string) bool { return linkClass(root, name) == "benign" }
 
 func hasSpecialBits(root *Node) bool {
 	s := false
@@ -748,6 +817,16 @@ func (s *recStore) Push(ctx context.Context, d ocispec.Descriptor, r io.Reader) 
 		s.mu.Unlock()
 	}
 	return err
+}
+
+// oracleFail records a violation (and, in the unprivileged child, a structured copy for the parent).
+func oracleFail(id, sig, msg string, sc *Scenario) {
+	run.OracleFail(id, sig, msg, sc)
+	if oracleSide != nil {
+		js, _ := json.Marshal(sc)
+		rec, _ := json.Marshal(oracleRec{ID: id, Sig: sig, Msg: msg, Replay: js})
+		oracleSide.Write(append(rec, '\n'))
+	}
 }
 
 // ---------- running one scenario ----------
@@ -860,7 +939,7 @@ func runScenario(sc *Scenario) {
 	}
 	scJSON, _ := json.Marshal(sc)
 	tail := " #" + hex.EncodeToString(scJSON)
-	fail := func(id, sig, msg string) { run.OracleFail(id, sig, msg, sc) }
+	fail := func(id, sig, msg string) { oracleFail(id, sig, msg, sc) }
 	scid := run.NewID()
 
 	old := syscall.Umask(sc.Umask)
@@ -1137,15 +1216,35 @@ func runScenario(sc *Scenario) {
 		_, cerr = oras.Copy(ctx, mid, "v1", s2, "v1", oras.DefaultCopyOptions)
 	}
 
-	allBenign := true
+	worst := "benign"
 	for _, it := range sc.Items {
-		if it.Tree.Kind == "d" && !benign(it.Tree) {
-			allBenign = false
+		if it.Tree.Kind == "d" {
+			switch c := linkClass(it.Tree, unhx(it.Name)); {
+			case c == "outside":
+				worst = c
+			case c == "through" && worst == "benign":
+				worst = c
+			}
 		}
 	}
 	if cerr != nil {
 		run.Count("copy-in=" + strings.SplitN(errClass(cerr), ":", 2)[0])
-		if allBenign {
+		msg := cerr.Error()
+		switch {
+		case worst == "outside" && (strings.Contains(msg, "is outside of") || strings.Contains(msg, "no symbolic link allowed") ||
+			strings.Contains(msg, "not a directory") || strings.Contains(msg, "too many levels")):
+			// a link that leaves the added directory: refused by design, outside the property
+			run.Count("not-judged: link leaves the directory, refused")
+		case worst == "through" && strings.Contains(msg, "no symbolic link allowed"):
+			fail(scid, "link-through-link-rejected", "a tree whose relative links all stay inside was refused because one target passes through another link that had been extracted before it: "+msg)
+			return
+		case worst == "through" && (strings.Contains(msg, "not a directory") || strings.Contains(msg, "too many levels")):
+			fail(scid, "link-through-file-rejected", "a tree whose relative links all stay inside was refused because one (dangling) target passes through a regular file or through itself: "+msg)
+			return
+		case sc.NonRoot && strings.Contains(msg, "permission denied"):
+			fail(scid, "nonroot-permission-denied", "restore by an unprivileged user failed: "+msg)
+			return
+		default:
 			// the restore did not complete (as opposed to "restored differently": path-missing, kind,
 			// file-bytes, link-target, mode, path-extra below)
 			sig := "restore-failed-other"
@@ -1250,8 +1349,20 @@ func runScenario(sc *Scenario) {
 				fail(scid, "file-bytes", fmt.Sprintf("%q: restored bytes %s, added %s", name, digest.FromBytes(data), descs[i].Digest))
 			}
 			if it.Tree.Kind == "f" {
-				if unixMode(fi.Mode()) != it.Tree.Mode&^umask && unixMode(fi.Mode()) != it.Tree.Mode {
+				wantMode := it.Tree.Mode &^ umask
+				if sc.Preserve {
+					wantMode = it.Tree.Mode
+				}
+				if sc.NonRoot {
+					wantMode &^= 0o6000 // not generated for the unprivileged run anyway
+				}
+				if unixMode(fi.Mode()) != wantMode {
 					run.Count("plain-file-mode-not-carried")
+					if unixMode(fi.Mode()) == 0o666&^umask {
+						fail(scid, "plain-file-mode-not-carried", fmt.Sprintf("%q: a plain file added with mode %o comes back with %o (0666 minus umask %03o): a blob descriptor carries no mode", name, it.Tree.Mode, unixMode(fi.Mode()), sc.Umask))
+					} else {
+						fail(scid, "file-mode", fmt.Sprintf("%q: a plain file added with mode %o comes back with %o (umask %03o)", name, it.Tree.Mode, unixMode(fi.Mode()), sc.Umask))
+					}
 				}
 				h := sha256.Sum256(data)
 				fid := run.NewID()
@@ -1262,9 +1373,10 @@ func runScenario(sc *Scenario) {
 			}
 			continue
 		}
-		isBenign := benign(it.Tree)
+		isBenign := benign(it.Tree, name)
 		if !isBenign {
 			run.Count("tree-not-benign")
+			run.Count("tree-links=" + linkClass(it.Tree, name))
 		}
 		// pushed under this name?  (a deduplicated directory is restored from the first one's gzip)
 		id := run.NewID()
@@ -1299,9 +1411,7 @@ func runScenario(sc *Scenario) {
 		if hasSpecialBits(it.Tree) {
 			run.Count("tree-with-setuid/setgid/sticky")
 		}
-		if !isBenign {
-			continue
-		}
+		// whatever the links look like: once the restore succeeded the tree must be the source tree
 		want := expectTree(it.Tree, umask, sc.Preserve)
 		compareTrees(id, name, sc, want, got, fail)
 	}
@@ -1335,6 +1445,8 @@ func compareTrees(id, name string, sc *Scenario, want, got map[string]obs, fail 
 			if k == "." && !sc.Preserve && g.mode == 0o777&^uint32(sc.Umask) {
 				// the directory itself is pre-created with 0777 &^ umask; its recorded mode is not applied
 				fail(id, "root-mode", fmt.Sprintf("%q: the directory itself is restored with mode %o (0777 minus umask %03o), added with %o", name, g.mode, sc.Umask, w.mode|0))
+			} else if !sc.Preserve && w.kind == "d" && w.mode&0o6000 != 0 && g.mode == w.mode&^0o6000 {
+				fail(id, "dir-special-bits", fmt.Sprintf("%q: directory %q has mode %o, added with %o: setuid/setgid of a directory lost without PreservePermissions (mkdir(2) drops them)", name, k, g.mode, w.mode))
 			} else if sc.Preserve && w.mode&0o7000 != 0 && g.mode == w.mode&^0o7000 {
 				fail(id, "preserve-special-bits", fmt.Sprintf("%q: %q has mode %o, added with %o: PreservePermissions lost setuid/setgid/sticky", name, k, g.mode, w.mode))
 			} else {
@@ -1394,14 +1506,14 @@ func tamperCases(ctx context.Context, sc *Scenario, scid, tail, work string, i i
 			nd.Size++
 		}
 		err := st.Push(ctx, nd, bytes.NewReader(blob))
-		if err == nil && v.tag == "good" && benign(it.Tree) {
+		if err == nil && v.tag == "good" {
 			// the direct route Add -> Push (no manifest, no copy): restored differently?
 			if got, serr := snapshot(filepath.Join(dir, name)); serr != nil {
-				run.OracleFail(scid, "snapshot", serr.Error(), sc)
+				oracleFail(scid, "snapshot", serr.Error(), sc)
 			} else {
 				run.Count("direct-push-compared")
 				compareTrees(scid, name, sc, expectTree(it.Tree, uint32(sc.Umask), sc.Preserve), got,
-					func(id, sig, msg string) { run.OracleFail(id, "direct-"+sig, msg, sc) })
+					func(id, sig, msg string) { oracleFail(id, "direct-"+sig, msg, sc) })
 			}
 		}
 		st.Close()
@@ -1413,14 +1525,14 @@ func tamperCases(ctx context.Context, sc *Scenario, scid, tail, work string, i i
 		run.Case(id, fmt.Sprintf("U %d %d %s %d %d %s %s%s", sc.Umask, b2i(sc.Preserve), v.ckModel, b2i(v.digestOK), b2i(v.sizeOK), nameComps(name), tree(it.Tree, false), tail), res)
 		run.Count("unpack-" + v.tag + "=" + res)
 		run.Nontrivial("U " + v.tag + string(d.Digest))
-		bn := benign(it.Tree)
+		bn := benign(it.Tree, name)
 		switch {
 		case v.tag == "wrong-checksum" && err == nil:
-			run.OracleFail(id, "checksum-unverified", fmt.Sprintf("Push(%q) accepted a blob whose uncompressed digest differs from the annotation", name), sc)
+			oracleFail(id, "checksum-unverified", fmt.Sprintf("Push(%q) accepted a blob whose uncompressed digest differs from the annotation", name), sc)
 		case (v.tag == "wrong-digest" || v.tag == "wrong-size") && err == nil:
-			run.OracleFail(id, "blob-unverified", fmt.Sprintf("Push(%q) accepted a blob not matching the descriptor (%s)", name, v.tag), sc)
+			oracleFail(id, "blob-unverified", fmt.Sprintf("Push(%q) accepted a blob not matching the descriptor (%s)", name, v.tag), sc)
 		case v.tag == "good" && err != nil && bn:
-			run.OracleFail(id, "unpack-failed", fmt.Sprintf("Push(%q) of the untouched blob failed: %v", name, err), sc)
+			oracleFail(id, "unpack-failed", fmt.Sprintf("Push(%q) of the untouched blob failed: %v", name, err), sc)
 		}
 		os.RemoveAll(dir)
 	}
@@ -1463,7 +1575,7 @@ func foreignCase(ctx context.Context, sc *Scenario, tail, work string, it Item) 
 	r := common.NewRand(sc.Foreign)
 	var es []fent
 	walkEntries(it.Tree, name, &es)
-	variant := r.Intn(6)
+	variant := r.Intn(7)
 	switch variant {
 	case 1: // no root entry
 		es = es[1:]
@@ -1473,6 +1585,17 @@ func foreignCase(ctx context.Context, sc *Scenario, tail, work string, it Item) 
 		es = append(es, fent{name: name, typ: "d", mode: common.Pick(r, dirModes)})
 	case 4: // any order
 		common.Shuffle(r, es)
+	case 6: // a symlink entry named like a directory of the archive (replaces it when it is empty)
+		var ds []int
+		for i, e := range es {
+			if e.typ == "d" && i > 0 {
+				ds = append(ds, i)
+			}
+		}
+		if len(ds) > 0 {
+			d := es[common.Pick(r, ds)]
+			es = append(es, fent{name: d.name, typ: "l", mode: 0o777, target: common.Pick(r, []string{"y", ".", "nowhere/x"})})
+		}
 	case 5: // two neighbours swapped
 		if len(es) > 2 {
 			i := 1 + r.Intn(len(es)-2)
@@ -1531,7 +1654,7 @@ func foreignCase(ctx context.Context, sc *Scenario, tail, work string, it Item) 
 	}
 	got, serr := snapshot(filepath.Join(dir, name))
 	if serr != nil {
-		run.OracleFail(id, "snapshot", serr.Error(), sc)
+		oracleFail(id, "snapshot", serr.Error(), sc)
 		return
 	}
 	run.Case(id, input, "OK "+listing(got))
@@ -1591,9 +1714,109 @@ func enumSmall(preserves []bool) {
 	run.Extra["small_scope_trees"] = n
 }
 
+// oracleSide is the structured copy of oracle.txt that the unprivileged child leaves for its parent.
+type oracleRec struct {
+	ID, Sig, Msg string
+	Replay       json.RawMessage
+}
+
+var oracleSide *os.File
+
+// runChild re-executes this harness as uid 65534 in a sub-directory and folds its cases,
+// observations, oracle verdicts and counters into this run.  Not being able to do so is an
+// error of the run (exit != 0), never a silent pass.
+func runChild(replay string) {
+	dir := filepath.Join(run.Dir, "nonroot")
+	tmp := filepath.Join(dir, "tmp")
+	if err := os.MkdirAll(tmp, 0o755); err != nil {
+		panic(err)
+	}
+	for _, d := range []string{dir, tmp} {
+		if err := os.Chown(d, nonRootUID, nonRootUID); err != nil {
+			panic(err)
+		}
+	}
+	args := []string{"-seed", fmt.Sprint(run.Seed), "-tier", run.Tier, "-dir", dir, "-nonroot"}
+	if replay != "" {
+		args = append(args, "-replay", replay)
+	}
+	cmd := exec.Command(os.Args[0], args...)
+	cmd.Env = append(os.Environ(), "TMPDIR="+tmp, "HOME="+dir)
+	cmd.Dir = dir
+	cmd.SysProcAttr = &syscall.SysProcAttr{Credential: &syscall.Credential{Uid: nonRootUID, Gid: nonRootUID}}
+	out, err := cmd.CombinedOutput()
+	if err != nil {
+		fmt.Fprintf(os.Stderr, "C12 harness: the unprivileged (uid %d) run failed: %v\n%s\n", nonRootUID, err, out)
+		run.Finish()
+		os.Exit(3)
+	}
+	read := func(name string) []string {
+		data, err := os.ReadFile(filepath.Join(dir, name))
+		if err != nil {
+			panic(err)
+		}
+		return strings.Split(strings.TrimRight(string(data), "\n"), "\n")
+	}
+	impl := map[string]string{}
+	for _, l := range read("impl.txt") {
+		if id, obs, ok := strings.Cut(l, " "); ok {
+			impl[id] = obs
+		}
+	}
+	n := 0
+	for _, l := range read("cases.txt") {
+		if id, in, ok := strings.Cut(l, " "); ok {
+			run.Case("n"+id, in, impl[id])
+			n++
+		}
+	}
+	if data, err := os.ReadFile(filepath.Join(dir, "oracle.jsonl")); err == nil {
+		for _, l := range strings.Split(strings.TrimSpace(string(data)), "\n") {
+			var r oracleRec
+			if l != "" && json.Unmarshal([]byte(l), &r) == nil {
+				run.OracleFail("n"+r.ID, r.Sig, "[uid "+fmt.Sprint(nonRootUID)+"] "+r.Msg, r.Replay)
+			}
+		}
+	}
+	var st struct {
+		Dist map[string]int `json:"input_distribution"`
+	}
+	if data, err := os.ReadFile(filepath.Join(dir, "stats.json")); err == nil && json.Unmarshal(data, &st) == nil {
+		for k, v := range st.Dist {
+			run.Dist["nonroot: "+k] += v
+		}
+	}
+	run.Extra["nonroot_cases"] = n
+	if n == 0 && replay == "" {
+		fmt.Fprintln(os.Stderr, "C12 harness: the unprivileged run produced no cases")
+		run.Finish()
+		os.Exit(3)
+	}
+	os.RemoveAll(filepath.Join(dir, "w"))
+}
+
 func main() {
 	run = common.Start("C12")
 	defer run.Finish()
+	if *nonRootFlag {
+		if os.Getuid() == 0 {
+			panic("-nonroot needs an unprivileged uid")
+		}
+		f, err := os.Create(filepath.Join(run.Dir, "oracle.jsonl"))
+		if err != nil {
+			panic(err)
+		}
+		oracleSide = f
+		defer f.Close()
+	} else if os.Getuid() != 0 {
+		fmt.Fprintln(os.Stderr, "C12 harness: must be started as root (it sets modes such as 04755/0500 and re-runs a part of itself as uid 65534)")
+		os.Exit(3)
+	}
+	if fi, err := os.Stat(run.Dir); err == nil && fi.Mode()&os.ModeSetgid != 0 {
+		// every directory created below would inherit the bit and all mode comparisons would be off
+		fmt.Fprintln(os.Stderr, "C12 harness: the run directory is setgid; use a run directory without inherited mode bits")
+		os.Exit(3)
+	}
 	run.Rule = "scenario = 1-3 files/directories (random trees: nesting <= 5, empty dirs/files, names up to 220 bytes and non-ASCII, relative symlinks, assorted modes, sizes 0-2 MiB, some items with equal content) x options (TarReproducible, PreservePermissions, SkipUnpack, ForceCAS, IgnoreNoName, umask) x intermediate store (memory, OCI layout); distinct = distinct restored listing / entry list / descriptor; non-trivial = a directory tree with at least one entry, a duplicate-content manifest, a tampered descriptor or a failing extraction; plus the exhaustive small scope: every directory with entries a, b each a file / symlink (9 targets) / directory with nothing, a file or such a symlink"
 	if run.Replay != "" {
 		data, err := os.ReadFile(run.Replay)
@@ -1606,23 +1829,58 @@ func main() {
 		if err := json.Unmarshal(data, &doc); err != nil {
 			panic(err)
 		}
+		childCases := false
 		for _, raw := range doc.Cases {
 			var sc Scenario
 			if err := json.Unmarshal(raw, &sc); err != nil || len(sc.Items) == 0 {
 				continue
 			}
+			if sc.NonRoot != *nonRootFlag {
+				childCases = childCases || sc.NonRoot
+				continue
+			}
 			runScenario(&sc)
+		}
+		if childCases && !*nonRootFlag {
+			cp := filepath.Join(run.Dir, "nonroot-replay.json")
+			os.WriteFile(cp, data, 0o644)
+			runChild(cp)
+		}
+		return
+	}
+	if *nonRootFlag {
+		n := run.Scale(120, 2000)
+		for i := 0; i < n; i++ {
+			runScenario(genScenario(run.Rand.Fork(), 1000+i))
 		}
 		return
 	}
 	if run.Thorough() {
 		enumSmall([]bool{false, true})
 	} else {
-		enumSmall([]bool{true})
+		enumSmall([]bool{run.Seed%2 == 1})
 	}
 	n := run.Scale(600, 12000)
 	for i := 0; i < n; i++ {
 		sc := genScenario(run.Rand.Fork(), i)
 		runScenario(sc)
+	}
+	runChild("")
+	// coverage floors: a generated run in which one of the streams produced nothing is an error of
+	// the run (layer R), not a silent pass
+	var missing []string
+	for _, k := range []string{"item=dir", "item=file", "via=memory", "via=oci", "via=remote", "repro-pair=EQ", "repro-pair=NE",
+		"duplicate-content", "hard-link", "item-added-via-symlink", "item-path-differs-from-name", "tree-links=through",
+		"tree-links=outside", "tree-with-setuid/setgid/sticky", "foreign=OK", "foreign=ERR reject", "unpack-good=OK",
+		"unpack-wrong-checksum=ERR", "unpack-wrong-digest=ERR", "direct-push-compared", "skipunpack-blob", "forceCAS-deduped",
+		"filesize>=1MiB", "name>100", "name-nonascii", "nonroot: copy-in=OK", "nonroot: item=dir"} {
+		if run.Dist[k] == 0 {
+			missing = append(missing, k)
+		}
+	}
+	if len(missing) > 0 {
+		fmt.Fprintf(os.Stderr, "C12 harness: coverage floor: no case for %q\n", missing)
+		run.Finish()
+		os.Exit(3)
 	}
 }
